@@ -1071,6 +1071,8 @@ def m_math_unary(name, exact=None, domain=None):
             return it.native(getattr(_math, name), [x], {})
         if not is_sym(x):
             x = m_float(it, x)
+            if not is_sym(x):
+                return it.native(getattr(_math, name), [x], {})
         x = num(x)
         if domain is not None:
             ok, exc = domain
@@ -1101,7 +1103,12 @@ def _trunc(x):
 def m_math_log(it, x, base=None):
     if not (is_sym(x) or is_sym(base) or not is_prim(x)):
         return it.native(_math.log, [x] if base is None else [x, base], {})
-    x = num(lift(x if is_prim(x) else m_float(it, x)))
+    x = x if is_prim(x) else m_float(it, x)
+    if base is not None and not is_prim(base):
+        base = m_float(it, base)
+    if not (is_sym(x) or is_sym(base)):
+        return it.native(_math.log, [x] if base is None else [x, base], {})
+    x = num(lift(x))
     if it.branch(Sym(to_real(x) <= 0, 'bool')):
         raise RaiseEx(ValueError('math domain error'))
     LN = NP_UF.setdefault('math.log', uf('math_log', ['real'], 'real', lambda v: _math.log(float(v))))
@@ -1285,3 +1292,25 @@ def m_math_prod(it, items, start=1):
 
 
 BUILTIN_MODELS[_math.prod] = m_math_prod
+
+
+def _install_numpy_predicates():
+    import numpy as np
+
+    def m_isinf(it, x):
+        if is_sym(x):
+            return False          # A-float: a real number is never infinite (overflow is the bounded layer's business)
+        return it.native(np.isinf, [x], {})
+
+    def m_isnan(it, x):
+        if is_sym(x):
+            return False
+        return it.native(np.isnan, [x], {})
+    BUILTIN_MODELS[np.isinf] = m_isinf
+    BUILTIN_MODELS[np.isnan] = m_isnan
+    BUILTIN_MODELS[_math.isinf] = m_isinf
+    BUILTIN_MODELS[_math.isnan] = m_isnan
+    BUILTIN_MODELS[_math.isfinite] = lambda it, x: True if is_sym(x) else it.native(_math.isfinite, [x], {})
+
+
+_install_numpy_predicates()
